@@ -3,6 +3,8 @@
 SCHEMA: external class qualified name -> {attribute: shape}. These are assumptions about the installed
 libraries' data model (listed in the evidence); class hierarchies themselves are read from the libraries.
 """
+import griffe.dataclasses  # noqa: F401
+import griffe  # noqa: F401
 import mypy.nodes as mp_nodes  # noqa: F401
 import mypy.types as mp_types  # noqa: F401
 from mypy.nodes import ArgKind  # noqa: F401
@@ -24,6 +26,9 @@ SCHEMA = {
 SCHEMA.update({
     "safeds_stubgen.stubs_generator._stub_string_generator.StubsStringGenerator": {
         "api": "API", "naming_convention": "NamingConvention", "reexport_module_id": "str"},
+    "safeds_stubgen.docstring_parsing._docstring_parser.DocstringParser": {
+        "_DocstringParser__cached_node": "str | None", "_DocstringParser__cached_docstring": "griffe.dataclasses.Docstring | None"},
+    "safeds_stubgen.api_analyzer._api.QualifiedImport": {"qualified_name": "str", "alias": "str | None"},
 })
 
 # named record shapes (dictionaries with constant keys): the output format of AbstractType.to_dict
